@@ -269,6 +269,18 @@ Definition run_bigout (x : sx) : sx :=
   | _ => err "bad case"
   end.
 
+(* leg takeover: case ( how ).  Server 1 binds the socket path, is told to stop with a compile in flight, server 2
+   binds the path inside the grace window, server 1 exits.  Output ( inflight during old_gone reachable next ):
+   the in-flight compile is served, the take-over works, the path still leads to a live server (sock_owner), the
+   next client is served. *)
+Definition run_takeover (x : sx) : sx :=
+  let owner := sock_owner [SBind 1; SBind 2; SExit 1] in
+  SL [ sym "served";
+       (if is_sym "client" (nth 0 (get_L x) (SN 0)) then sym "served" else sym "started");
+       SN 1;
+       sbool (match owner with Some 2 => true | _ => false end);
+       sym "served" ].
+
 Definition dispatch (leg : list N) (x : sx) : sx :=
   if bytes_eqb leg (bs "client") then run_client x
   else if bytes_eqb leg (bs "decode_resp") then enc_response (decode_response opq0 (get_B x))
@@ -277,6 +289,7 @@ Definition dispatch (leg : list N) (x : sx) : sx :=
   else if bytes_eqb leg (bs "kill") then run_kill x
   else if bytes_eqb leg (bs "vanish") then run_vanish x
   else if bytes_eqb leg (bs "bigout") then run_bigout x
+  else if bytes_eqb leg (bs "takeover") then run_takeover x
   else if bytes_eqb leg (bs "coldstart") then run_coldstart x
   else if bytes_eqb leg (bs "poison") then run_poison x
   else err "unknown leg".
